@@ -424,7 +424,8 @@ func TestPropCLI(t *testing.T) {
 		if internal {
 			cl = append(cl, "cli:nontrivial")
 		}
-		evid.Eval("cli", evid.Hash(hashRecs(recs), c.Dist, c.Ratio, c.BatchSize, fmt.Sprint(c.Runs)), internal, nil, cl...)
+		evid.Eval("cli", evid.Hash(hashRecs(recs), c.Dist, c.Ratio, c.BatchSize, fmt.Sprint(c.Runs)), internal,
+			map[string]any{"records": len(recs), "distance": c.Dist, "ratio": c.Ratio, "batch_size": c.BatchSize, "runs": c.Runs, "first_record": recs[0]}, cl...)
 		evid.Class("cli_runs", int64(len(c.Runs)+1))
 		if err := checkCLI(c); err != nil {
 			evid.Fail(rt, "cli", c, err)
